@@ -9,8 +9,10 @@ import RotondaModel.Model.ReconfUnits
       Output per event `f<tag>` | `-` | `n<name>:S<subscribed upstreams>`.
     `M|<f>+<f>,<d|->|<ev>;…` mrt-file-in: events `q<name>` (GET queue?file=), `R<cfg>`. Output per event
       `200>d<dir>.<name>` | `400` | `r` | `r>s<f>,s<f>`; the first token is what was read at start.
+    `B|<l>,<p>,<t>,<f>,<m>|<ev>;…` bmp-tcp-in: events `c<slot>`, `i<k>.<t>`, `x<k>`, `R<cfg>`. Output per event
+      `<token>@P<bound>:H<list path>:I<id>=<page>/<template>,…:N<template>.<id>,…:S<template>.<filter>.<mode>`.
     `N|<u>+<u>|<ev>;…` null-out: events `r` (ReportLinks), `R<srcs>`. Output per event the reported `<u>.<gen>,…`.
-    Flags: `bgpeq=`, `bgpmatch=`, `bgplisten=`, `fileout=`, `mrt=` `as-written|repaired`. -/
+    Flags: `bgpeq=`, `bgpmatch=`, `bgplisten=`, `fileout=`, `mrt=`, `bmppath=`, `bmptrace=` `as-written|repaired`. -/
 open Rotonda.ReconfUnits
 
 def nat? (s : String) : Option Nat := s.toNat?
@@ -213,6 +215,42 @@ def runMrt (v : Variant) (cfg evs : String) : String :=
     " ".intercalate (start :: (Mrt.outs v (Mrt.init c) es).map showMOut)
   | _, _ => "bad-case"
 
+/-! ### bmp-tcp-in -/
+open BmpIn in
+def parsePCfg (s : String) : Option Cfg :=
+  match (s.splitOn ",").mapM nat? with
+  | some [l, p, t, f, m] => some ⟨l % 3, p % 2, t % 3, f % 3, m % 3⟩
+  | _ => none
+
+open BmpIn in
+def parsePEv (s : String) : Option Ev :=
+  let r := (s.drop 1).toString
+  if s.startsWith "c" then (nat? r).map (fun x => .conn (x % 3))
+  else if s.startsWith "i" then
+    match (r.splitOn ".").mapM nat? with
+    | some [k, t] => some (.init k t)
+    | _ => none
+  else if s.startsWith "x" then (nat? r).map .close
+  else if s.startsWith "R" then (parsePCfg r).map .reload
+  else none
+
+open BmpIn in
+def showPOut : Out → String
+  | .refused => "refused" | .ok id => s!"ok{id}" | .nc => "nc" | .closed => "closed" | .reloaded => "r"
+  | .msg p tr => s!"m{if p then 1 else 0}t" ++ (match tr with | some t => toString t | none => "-")
+
+open BmpIn in
+def showPSt (s : St) : String :=
+  let rs := s.routers.map (fun r => s!"{r.id}={r.page}/{r.tmpl}")
+  let ls := (sortPairs s.seen).map (fun (i, t) => s!"{t}.{i}")
+  s!"P{s.bound}:H{s.cfg.path}:I{orDash rs}:N{orDash ls}:S{s.cfg.tmpl}.{s.cfg.filter}.{s.cfg.mode}"
+
+def runBmp (v : Variant) (cfg evs : String) : String :=
+  match parsePCfg cfg, (if evs.isEmpty then some [] else (evs.splitOn ";").mapM parsePEv) with
+  | some c, some es =>
+    " ".intercalate ((BmpIn.runOut v (BmpIn.init c) es).map (fun (o, s) => showPOut o ++ "@" ++ showPSt s))
+  | _, _ => "bad-case"
+
 /-! ### null-out -/
 open NullOut in
 def parseNEv (s : String) : Option Ev :=
@@ -234,6 +272,7 @@ def runCase (v : Variant) (line : String) : String :=
   | ["X", c, e] => runFilter c e
   | ["N", c, e] => runNull c e
   | ["M", c, e] => runMrt v c e
+  | ["B", c, e] => runBmp v c e
   | _ => "bad-case"
 
 partial def loop (v : Variant) (h : IO.FS.Stream) (out : IO.FS.Stream) : IO Unit := do
@@ -244,5 +283,5 @@ partial def loop (v : Variant) (h : IO.FS.Stream) (out : IO.FS.Stream) : IO Unit
 
 def main (args : List String) : IO Unit := do
   let s (k : String) : Site := if args.contains (k ++ "=repaired") then .repaired else .asWritten
-  let v : Variant := { bgpeq := s "bgpeq", bgpmatch := s "bgpmatch", bgplisten := s "bgplisten", fileout := s "fileout", mrt := s "mrt" }
+  let v : Variant := { bgpeq := s "bgpeq", bgpmatch := s "bgpmatch", bgplisten := s "bgplisten", fileout := s "fileout", mrt := s "mrt", bmppath := s "bmppath", bmptrace := s "bmptrace" }
   loop v (← IO.getStdin) (← IO.getStdout)
